@@ -117,6 +117,7 @@ func ShareWithConfig[T any](config ShareConfig[T]) func(Observable[T]) Observabl
 			currentSubject, currentSourceSubscription, createdSubject := getOrCreateSubject()
 
 			mu.Unlock()
+			verifPoint("share.unlocked")
 
 			// Expected to be non-blocking.
 			// This is the subscription between the subject and the new observer.
@@ -157,6 +158,7 @@ func ShareWithConfig[T any](config ShareConfig[T]) func(Observable[T]) Observabl
 				)
 
 				// Subscription between the source and the subject.
+				verifPoint("share.before-source-subscribe")
 				sourceSubscription.AddUnsubscribable(
 					source.SubscribeWithContext(subscriberCtx, proxy),
 				)
